@@ -74,3 +74,42 @@ pub open spec fn shape_from(sizes: Seq<i32>, i: int, r: nat) -> Seq<nat> decreas
         else { seq![(7 + s) as nat] + shape_from(sizes, i + 1, 0) }                          // padding-only record: drawn size + header
     }
 }
+
+// a chunk of any size as the PSH frames that carry it: pieces of 65535 bytes, the last one shorter (or empty for an empty chunk)
+pub open spec fn psh_frames(sid: u32, d: Seq<u8>) -> Seq<FrameS> decreases d.len()
+{
+    if d.len() <= 65535 { seq![FrameS { cmd: Command::Push, stream_id: sid, data: d }] }
+    else { seq![FrameS { cmd: Command::Push, stream_id: sid, data: d.subrange(0, 65535) }] + psh_frames(sid, d.subrange(65535, d.len() as int)) }
+}
+pub open spec fn concat_data(fs: Seq<FrameS>) -> Seq<u8> decreases fs.len()
+{ if fs.len() == 0 { Seq::empty() } else { fs[0].data + concat_data(fs.drop_first()) } }
+// the pieces are all PSH frames of that stream, each fits one frame, and their payloads concatenate to the chunk
+pub proof fn lemma_psh_frames(sid: u32, d: Seq<u8>)
+    ensures
+        concat_data(psh_frames(sid, d)) == d,
+        forall|i: int| 0 <= i < psh_frames(sid, d).len() ==> (#[trigger] psh_frames(sid, d)[i]).data.len() <= 65535
+            && psh_frames(sid, d)[i].cmd == Command::Push && psh_frames(sid, d)[i].stream_id == sid,
+    decreases d.len()
+{
+    if d.len() <= 65535 {
+        let fs = psh_frames(sid, d);
+        assert(fs.drop_first() =~= Seq::<FrameS>::empty());
+        assert(concat_data(fs.drop_first()) =~= Seq::<u8>::empty());
+        assert(concat_data(fs) =~= d + Seq::<u8>::empty());
+        assert(concat_data(fs) =~= d);
+    } else {
+        let hd = FrameS { cmd: Command::Push, stream_id: sid, data: d.subrange(0, 65535) };
+        let tl = psh_frames(sid, d.subrange(65535, d.len() as int));
+        lemma_psh_frames(sid, d.subrange(65535, d.len() as int));
+        let fs = psh_frames(sid, d);
+        assert(fs =~= seq![hd] + tl);
+        assert(fs.drop_first() =~= tl);
+        assert(fs[0] == hd);
+        assert(concat_data(fs) == hd.data + concat_data(tl));
+        assert(concat_data(fs) =~= d.subrange(0, 65535) + d.subrange(65535, d.len() as int));
+        assert(d.subrange(0, 65535) + d.subrange(65535, d.len() as int) =~= d);
+        assert forall|i: int| 0 <= i < fs.len() implies (#[trigger] fs[i]).data.len() <= 65535 && fs[i].cmd == Command::Push && fs[i].stream_id == sid by {
+            if i > 0 { assert(fs[i] == tl[i - 1]); }
+        }
+    }
+}
